@@ -557,10 +557,12 @@ type hop struct {
 	V     *tval    `json:"v,omitempty"`
 	Chain [][]tval `json:"chain,omitempty"`
 	Keys  []tval   `json:"keys,omitempty"`
+	Slot  int      `json:"slot,omitempty"` // >0: dopen keeps the sub-dictionary of Chain in this slot; d* ops with the slot use the kept handle
 }
 
 type history struct {
-	BT  int     `json:"bt"`
+	Spare bool    `json:"spare,omitempty"` // builders are siblings derived from one NewHashKey over a prefix slice with spare capacity
+	BT    int     `json:"bt"`
 	Cs  []cdesc `json:"cs"`
 	Ops []hop   `json:"ops"`
 }
@@ -599,7 +601,7 @@ func (o hop) coq() string {
 		return fmt.Sprintf("HDGet %d %s %s", o.C, chain, coqTvs(o.Keys))
 	case "dset":
 		return fmt.Sprintf("HDSet %d %s %s (%s)", o.C, chain, coqTvs(o.Keys), o.V.coq())
-	case "dset0":
+	case "dset0", "dopen":
 		return fmt.Sprintf("HDSet0 %d %s", o.C, chain)
 	case "ddel":
 		return fmt.Sprintf("HDDel %d %s %s", o.C, chain, coqTvs(o.Keys))
@@ -641,9 +643,18 @@ func execHist(h history) (outs []string, tab htab, msg string) {
 		rd map[string][]byte
 	}
 	cs := make([]*cont, len(h.Cs))
+	var root containerdb.KeyBuilder
+	if h.Spare && len(h.Cs) > 0 && len(h.Cs[0].Parts) > 0 {
+		// all containers hang below one parent builder whose prefix slice has spare capacity
+		root = containerdb.NewHashKey(make([]byte, 0, 160), h.Cs[0].Parts[0].goVal())
+	}
+	held := map[int]*containerdb.DictDB{}
 	for i, d := range h.Cs {
 		c := &cont{base: refParts(d.Parts), rd: map[string][]byte{}}
 		kb := containerdb.ToKey(bt, goVals(d.Parts)...)
+		if root != nil {
+			kb = root.Append(goVals(d.Parts[1:])...)
+		}
 		switch d.Kind {
 		case "var":
 			c.v = containerdb.NewVarDB(store, kb)
@@ -739,12 +750,14 @@ func execHist(h history) (outs []string, tab htab, msg string) {
 			if n != len(c.ra) {
 				fail(i, "Size() = %d after a history that leaves %d elements", n, len(c.ra))
 			}
-		case "dget", "dset", "dset0", "ddel":
+		case "dget", "dset", "dset0", "ddel", "dopen":
 			d := c.d
 			depth := h.Cs[o.C].Depth
 			var path [][]byte
+			kept, useKept := held[o.C*100+o.Slot]
+			useKept = useKept && o.Slot > 0 && o.O != "dopen"
 			for _, ks := range o.Chain {
-				if d != nil {
+				if d != nil && !useKept {
 					d = d.GetDB(goVals(ks)...)
 				}
 				if len(ks) >= depth {
@@ -754,6 +767,12 @@ func execHist(h history) (outs []string, tab htab, msg string) {
 				depth -= len(ks)
 				path = append(path, refParts(ks)...)
 			}
+			if useKept {
+				d = kept
+			}
+			if o.O == "dopen" && d != nil && depth >= 0 {
+				held[o.C*100+o.Slot] = d
+			}
 			if d == nil || depth < 0 {
 				outs = append(outs, "RNil")
 				if (d == nil) != (depth < 0) {
@@ -762,7 +781,7 @@ func execHist(h history) (outs []string, tab htab, msg string) {
 				continue
 			}
 			full := append(path, refParts(o.Keys)...)
-			arityOK := len(o.Keys) == depth
+			arityOK := len(o.Keys) == depth && o.O != "dopen" && o.O != "dset0"
 			mk := canon(full)
 			if arityOK {
 				slot(c, full...)
@@ -787,7 +806,7 @@ func execHist(h history) (outs []string, tab htab, msg string) {
 				if arityOK {
 					c.rd[mk] = vb
 				}
-			case "dset0":
+			case "dset0", "dopen":
 				outs = append(outs, errRes(d.Set()))
 			case "ddel":
 				err := d.Delete(goVals(o.Keys)...)
